@@ -134,6 +134,8 @@ class ZeroWorld:
                 return a + b
             if op == "Sub":
                 return a - b if a >= b else None
+            if op == "SubSat":
+                return max(a - b, 0)
             if op == "Mul":
                 return a * b
             if op in ("BitAnd",) and isinstance(a, bool) and isinstance(b, bool):
